@@ -103,6 +103,8 @@ pub fn run(cfg: &RunCfg) -> Ctx {
     let mut all = Ctx::new();
     all.merge(par_cases(cfg, "server", cfg.n(20_000, 16 * 800_000), || (), |_, rng, ctx, i| server_case(rng, ctx, i)));
     all.merge(par_cases(cfg, "client", cfg.n(12_000, 16 * 400_000), || (), |_, rng, ctx, i| client_case(rng, ctx, i)));
+    all.merge(par_cases(cfg, "enclist", cfg.n(3_000, 200_000), || (), |_, rng, ctx, _| enclist_case(rng, ctx)));
+    all.floor("list.pop_left_something", 20);
     let pairs: Vec<String> = all.counters.keys().filter(|k| k.starts_with("cfgpair.")).cloned().collect();
     for k in &pairs {
         all.counters.remove(k);
@@ -398,6 +400,50 @@ impl Service<http::Request<tonic::body::Body>> for CapSvc {
             resp.headers_mut().insert("content-type", HeaderValue::from_static("application/grpc"));
             Ok(resp)
         })
+    }
+}
+
+/// The configuration type itself: a server or client is "told" its encodings through an
+/// `EnabledCompressionEncodings` list (`enable` appends, `pop` removes the last); what the list
+/// then says is enabled must be what an ordered list without duplicates says.
+fn enclist_case(rng: &mut Rng, ctx: &mut Ctx) {
+    use tonic::codec::EnabledCompressionEncodings;
+    let encs = Enc::compressed();
+    let n = rng.urange(1, 9);
+    let ops: Vec<Option<Enc>> = (0..n).map(|_| if rng.chance(1, 3) { None } else { Some(*rng.pick(encs)) }).collect();
+    ctx.begin("enclist", json!({"ops": ops.iter().map(|o| o.map(|e| format!("enable({})", e.name())).unwrap_or("pop()".into())).collect::<Vec<_>>()}));
+    let mut real = EnabledCompressionEncodings::default();
+    let mut model: Vec<Enc> = Vec::new();
+    for (i, op) in ops.iter().enumerate() {
+        match op {
+            Some(e) => {
+                real.enable(e.tonic().unwrap());
+                if !model.contains(e) {
+                    model.push(*e);
+                }
+            }
+            None => {
+                let got = real.pop();
+                let want = model.pop();
+                if got != want.and_then(|e| e.tonic()) {
+                    ctx.violation("list-pop", format!("step {}: pop() returned {:?}, the last enabled encoding is {:?}", i, got, want.map(|e| e.name())));
+                    return;
+                }
+                if !model.is_empty() {
+                    ctx.count("list.pop_left_something");
+                }
+            }
+        }
+        for e in encs {
+            if real.is_enabled(e.tonic().unwrap()) != model.contains(e) {
+                ctx.violation("list-enabled", format!("after step {}: is_enabled({}) is {}, the list built so far is {:?}", i, e.name(), !model.contains(e), model.iter().map(|e| e.name()).collect::<Vec<_>>()));
+                return;
+            }
+        }
+        if real.is_empty() != model.is_empty() {
+            ctx.violation("list-empty", format!("after step {}: is_empty() is {}, the list built so far is {:?}", i, real.is_empty(), model.iter().map(|e| e.name()).collect::<Vec<_>>()));
+            return;
+        }
     }
 }
 
